@@ -261,111 +261,39 @@ static const char *known_trigger(const std::string &raw)
 		}
 		text += raw[i];
 	}
-	// F3 parse.cpp:520 get_elt reads past the end of a name that ends with '[' (no closing bracket): any token
-	//    holding a '[' without a later ']' is skipped
-	{
-		bool open = false;
-		for (size_t i = 0; i <= text.size(); i++) {
-			char c = i < text.size() ? text[i] : '\n';
-			if (c == '[') open = true;
-			else if (c == ']') open = false;
-			else if (c == ' ' || c == '\t' || c == '\n' || c == '\r' || c == ';' || c == '\0') { if (open) return "unterminated_bracket"; }
-		}
-	}
-	// F1 SS.cxx:82 cxxSS::dump_raw prints p[0..3] although the SOLID_SOLUTIONS options that take parameters
-	//    leave p with fewer than four elements: heap overflow whenever such an assemblage is dumped (DUMP, or the
-	//    state dump of set_and_run_wrapper after a convergence failure)
-	static const char *SS_P_OPTS[] = {"activity_coefficients", "distribution_coefficients", "miscibility_gap", "spinodal_gap",
-	                                  "critical_point", "alyotropic_point", "thompson", "margules"};
-	// F6 read.cpp:667/700/4041/4068/5858/5891/6536/6569/9826: -add_logk without a name (or -add_constant without a
-	//    number) leaves an add_logk entry whose name is NULL; tidy.cpp:593 builds a std::string from it ->
-	//    std::logic_error escapes through Run*/LoadDatabase*
-	// F8 tidy.cpp:4435-4438 ss_prep takes components [0] and [1] of every solid solution; SOLID_SOLUTIONS_RAW/_MODIFY
-	//    can create one with a single component (no validation) -> read past the vector when the temperature changes
+	// (filters of repaired defects F1, F3, F6, F8 were removed when the fix: commits landed; their inputs are now
+	//  regression replays replays/C08/fixed-*.json)
 	int kw = Keywords::KEY_NONE;
-	int ss_comps = -1;                 // components seen in the current -solid_solution section of a RAW/MODIFY block
-	auto close_ss = [&]() { if (ss_comps >= 0 && ss_comps < 2) hit = "ss_modify_single_component"; ss_comps = -1; };
 	for_each_line(text, [&](const std::vector<std::string> &toks) {
 		const std::string &tok = toks[0];
 		int k = Keywords::Keyword_search(tok);
-		if (k != Keywords::KEY_NONE) { close_ss(); kw = k; return; }
-		if (kw == Keywords::KEY_SOLID_SOLUTIONS_RAW || kw == Keywords::KEY_SOLID_SOLUTIONS_MODIFY) {
-			if (tok[0] == '-' ? (tok.size() >= 2 && is_prefix_of(tok.substr(1), "solid_solution")) : tok == "solid_solution") { close_ss(); ss_comps = 0; }
-			else if (ss_comps >= 0 && (tok[0] == '-' ? (tok.size() >= 2 && is_prefix_of(tok.substr(1), "components")) : (tok == "component" || tok == "components"))) ss_comps++;
-		}
-		if (kw == Keywords::KEY_SOLID_SOLUTIONS) {
-			for (const char *o : SS_P_OPTS) {
-				if (tok[0] == '-' ? is_prefix_of(tok.substr(1), o) : tok == o) hit = "ss_parameter_options_dump";
-			}
-		}
-		if (kw == Keywords::KEY_SOLUTION_SPECIES || kw == Keywords::KEY_PHASES || kw == Keywords::KEY_EXCHANGE_SPECIES ||
-		    kw == Keywords::KEY_SURFACE_SPECIES || kw == Keywords::KEY_NAMED_EXPRESSIONS) {
-			std::string o = tok[0] == '-' ? tok.substr(1) : tok;
-			bool dash = tok[0] == '-';
-			bool logk = dash ? (o.size() >= 2 && (is_prefix_of(o, "add_logk") || is_prefix_of(o, "add_log_k"))) : (o == "add_logk" || o == "add_log_k");
-			bool cons = dash ? (o.size() >= 2 && is_prefix_of(o, "add_constant")) : o == "add_constant";
-			if (logk && toks.size() < 2) hit = "add_logk_without_name";
-			if (cons) {
-				char *end = 0;
-				if (toks.size() < 2) hit = "add_logk_without_name";
-				else { strtod(toks[1].c_str(), &end); if (end == toks[1].c_str()) hit = "add_logk_without_name"; }
-			}
-		}
+		if (k != Keywords::KEY_NONE) { kw = k; return; }
+		(void)kw;
 	});
-	close_ss();
 	return hit;
 }
 
-// F7 tidy.cpp:431-436: a database that defines H+ (or H3O+) but not e- reports "e- not defined" and then
-//    dereferences the NULL species pointer (SIGSEGV in the release build).  Database texts only.
+// database texts only (LoadDatabaseString payloads)
 static const char *known_trigger_db(const std::string &text)
 {
 	if (g_no_known_filter) return 0;
-	// conservative: any mention of H+ / H3O+ counts as "defined"; e- counts as defined only by the exact line "e- = e-"
-	bool has_h = contains(text, "H+") || contains(text, "H3O+"), has_e = false;
-	size_t i = 0, n = text.size();
-	while (i < n) {
-		std::vector<std::string> toks;
-		while (i < n && text[i] != '\n' && text[i] != ';' && text[i] != '#') {
-			while (i < n && (text[i] == ' ' || text[i] == '\t' || text[i] == '\r')) i++;
-			size_t a = i;
-			while (i < n && !(text[i] == ' ' || text[i] == '\t' || text[i] == '\r' || text[i] == '\n' || text[i] == ';' || text[i] == '#')) i++;
-			if (i > a) toks.push_back(text.substr(a, i - a));
-		}
-		if (i < n && text[i] == '#') while (i < n && text[i] != '\n') i++;
-		i++;
-		if (toks.size() == 3 && toks[0] == "e-" && toks[1] == "=" && toks[2] == "e-") has_e = true;
-	}
-	return has_h && !has_e ? "database_without_electron" : 0;
-}
-
-// F2 Phreeqc::unnumbered_solutions (SOLUTION_SPREAD rows without a number) is cleared only by tidy_solutions: when
-//    a run stops with input errors before that, the parked solutions survive clean_up()/LoadDatabase and the next
-//    run uses them with dangling string pointers (use-after-free, SIGSEGV in the release build).
-// F4 the seven Rxn_<entity>_mix_map members (SOLUTION_MIX, EXCHANGE_MIX, ...) are emptied only by do_mixes() at the
-//    end of a simulation; clean_up() forgets them, so after a run that stopped early a *valid* LoadDatabase fails
-//    ("Solution n not found in mix_cxxSolutions") or mixes stale entities.
-//    Both triggers are recognised from the engine state after a failed call; the instance is then replaced
-//    instead of reloaded (counted).
-static const char *known_state_after_failure(FI *I)
-{
-	if (g_no_known_filter) return 0;
-	Phreeqc *P = I->P();
-	if (!P->unnumbered_solutions.empty()) return "unnumbered_solutions_survive_reload";
-	if (!P->Rxn_solution_mix_map.empty() || !P->Rxn_exchange_mix_map.empty() || !P->Rxn_gas_phase_mix_map.empty() || !P->Rxn_kinetics_mix_map.empty() ||
-	    !P->Rxn_pp_assemblage_mix_map.empty() || !P->Rxn_ss_assemblage_mix_map.empty() || !P->Rxn_surface_mix_map.empty()) return "entity_mix_maps_survive_reload";
+	(void)text;
 	return 0;
 }
 
-// F5 read.cpp:106-112 keeps a pointer into sformatf's buffer (error_string) across calls that may realloc it (the
-//    buffer restarts at 256 bytes with every LoadDatabase): heap-use-after-free when a line longer than the buffer
-//    is echoed while lines without a keyword are skipped.  Excluded by construction: the harness' database starts
-//    with a DATABASE line (ignored inside a database) carrying a 16 KB comment, which grows the buffer beyond every
-//    input length before the input is read (the same line is put in front of fuzzed database texts).  Strict
-//    replays use the plain texts.
+// triggers that can only be recognised from the engine state after a failed call: the instance is then replaced
+// instead of reloaded (counted).  (F2, F4 repaired: none at present.)
+static const char *known_state_after_failure(FI *I)
+{
+	if (g_no_known_filter) return 0;
+	(void)I;
+	return 0;
+}
+
+// text put in front of every database text by the harness (exclusion by construction; empty: F5 repaired)
 static std::string pregrow_line()
 {
-	return g_no_known_filter ? std::string() : "DATABASE #" + std::string(16300, 'x') + "\n";
+	return std::string();
 }
 
 // ---- UBSan reports (the asan variant is built with -fsanitize-recover=undefined, so the decision is made here):
@@ -610,7 +538,6 @@ static void init_common()
 		int rc = guarded("LoadDatabaseString(small)", [&] { return X->LoadDatabaseString(g_db_text.c_str()); });
 		if (rc != 0) harness_error(std::string("small database does not load: ") + X->GetErrorString());
 	}
-	if (!g_no_known_filter && A->P()->sformatf_buffer_size < 16384) harness_error("the long comment line did not grow the format buffer (F5 exclusion by construction is not in effect)");
 	g_ref = run_probe(A, true);
 	Ref rb = run_probe(B, true);
 	if (g_ref.rc != 0) harness_error("probe input fails on a fresh instance: " + g_ref.err);
